@@ -94,9 +94,8 @@ class ElectronicControlUnit:
         :param callback:
             The callback to be removed from the timer event list
         """
-        for event in self._timer_events:
-            if event['callback'] == callback:
-                self._timer_events.remove( event )
+        # modify the list in place, other threads may hold a reference to it
+        self._timer_events[:] = [event for event in self._timer_events if event['callback'] != callback]
         self._job_thread_wakeup()
 
     def connect(self, *args, **kwargs):
@@ -150,9 +149,8 @@ class ElectronicControlUnit:
         :param callback:
             Function to call when message is received.
         """
-        for dic in self._subscribers:
-            if dic['cb'] == callback:
-                self._subscribers.remove(dic)
+        # modify the list in place, other threads may hold a reference to it
+        self._subscribers[:] = [dic for dic in self._subscribers if dic['cb'] != callback]
 
 
     def add_ca(self, **kwargs):
@@ -309,7 +307,11 @@ class ElectronicControlUnit:
             next_wakeup = self.j1939_dll.async_job_thread(now)
 
             # check timer events
-            for event in self._timer_events:
+            # iterate over a copy: callbacks may add or remove timers (including themselves)
+            for event in list(self._timer_events):
+                if event not in self._timer_events:
+                    # removed by a callback during this pass
+                    continue
                 if event['deadline'] > now:
                     if next_wakeup > event['deadline']:
                         next_wakeup = event['deadline']
@@ -325,8 +327,9 @@ class ElectronicControlUnit:
                         if next_wakeup > event['deadline']:
                             next_wakeup = event['deadline']
                     else:
-                        # remove from list
-                        self._timer_events.remove( event )
+                        # remove from list (unless the callback has removed itself already)
+                        if event in self._timer_events:
+                            self._timer_events.remove( event )
 
             time_to_sleep = next_wakeup - time.time()
             if time_to_sleep > 0:
